@@ -430,6 +430,26 @@ var opMuts = []opMut{
 		// does not fold to a field: dropped like any unknown member
 		b.Extra = M{pick(r, []string{"typ", "type ", "delta_", "signed-data", "d\u00e9lta"}): "x"}
 	}},
+	// --- another text for the same hash bytes (unused bits of the last character set, or a line break inside)
+	{"hash/commitment-in-other-spelling", "cur", func(r *rand.Rand, b *built, cfg M) {
+		d := deltaM(b)
+		if d == nil {
+			return
+		}
+		uc, _ := d["updateCommitment"].(string)
+		d["updateCommitment"] = respellB64(r, uc)
+		rebind(b)
+	}},
+	{"hash/recovery-commitment-equal-bytes-other-spelling", "c", func(r *rand.Rand, b *built, cfg M) {
+		// recovery commitment = the update commitment's bytes under another text: "differ" must not be fooled
+		d := deltaM(b)
+		if d == nil || b.SD == nil {
+			return
+		}
+		uc, _ := d["updateCommitment"].(string)
+		b.SD["recoveryCommitment"] = respellB64(r, uc)
+	}},
+	{"hash/reveal-in-other-spelling", "urd", func(r *rand.Rand, b *built, cfg M) { b.Reveal = respellB64(r, b.Reveal) }},
 	// --- create
 	{"create/suffix-data-missing", "c", func(r *rand.Rand, b *built, cfg M) { b.SD = nil }},
 	{"create/recovery-commitment-malformed", "c", func(r *rand.Rand, b *built, cfg M) { b.SD["recoveryCommitment"] = pick(r, []string{"", "abc"}) }},
@@ -462,4 +482,19 @@ func mutsFor(typ string) []opMut {
 		}
 	}
 	return out
+}
+
+// respellB64 gives another text that Go's plain base64url decoder reads as the same bytes.
+func respellB64(r *rand.Rand, s string) string {
+	if s == "" {
+		return s
+	}
+	const al = "ABCDEFGHIJKLMNOPQRSTUVWXYZabcdefghijklmnopqrstuvwxyz0123456789-_"
+	unused := map[int]int{2: 4, 3: 2}[len(s)%4]
+	if unused > 0 && r.Intn(2) == 0 {
+		last := strings.IndexByte(al, s[len(s)-1])
+		return s[:len(s)-1] + string(al[last|(1+r.Intn(1<<unused-1))])
+	}
+	k := 1 + r.Intn(len(s)-1)
+	return s[:k] + pick(r, []string{"\n", "\r\n"}) + s[k:]
 }
